@@ -177,6 +177,8 @@ type Report struct {
 	Transitions int64            `json:"transitions"`
 	Validated   int64            `json:"validated"`
 	Outcomes    map[string]int64 `json:"outcomes"`
+	OutcomeH    map[uint64]int64 `json:"outcome_hashes"`
+	OutcomeOverflow int64        `json:"outcome_overflow"`
 	Violations  []*Violation     `json:"violations"`
 	Samples     []any            `json:"samples"`
 	Capped      bool             `json:"capped"`
@@ -196,7 +198,38 @@ func NewReport(prop, tier string) *Report {
 
 func (r *Report) SetJob(j string) { r.curJob = j; r.Jobs = append(r.Jobs, j) }
 
-func (r *Report) Outcome(o string) { r.Outcomes[o]++ }
+// Outcome counts one execution's canonical observation string. Distinct
+// outcomes are tracked exactly by 64-bit hash up to a cap (beyond it the
+// distinct count becomes a lower bound); the strings of the first 256 distinct
+// outcomes are kept as examples.
+func (r *Report) Outcome(o string) {
+	h := fnv64(o)
+	if r.OutcomeH == nil {
+		r.OutcomeH = map[uint64]int64{}
+	}
+	if _, ok := r.OutcomeH[h]; !ok && len(r.OutcomeH) >= outcomeCap {
+		r.OutcomeOverflow++
+		return
+	}
+	r.OutcomeH[h]++
+	if _, ok := r.Outcomes[o]; ok || len(r.Outcomes) < 256 {
+		r.Outcomes[o]++
+	}
+}
+
+const outcomeCap = 400000
+
+func fnv64(s string) uint64 {
+	h := uint64(14695981039346656037)
+	for i := 0; i < len(s); i++ {
+		h ^= uint64(s[i])
+		h *= 1099511628211
+	}
+	return h
+}
+
+// Distinct returns the number of distinct outcomes recorded (a lower bound if the cap was hit).
+func (r *Report) Distinct() int64 { return int64(len(r.OutcomeH)) }
 
 func (r *Report) Sample(s any) {
 	if len(r.Samples) < 4 {
@@ -243,8 +276,21 @@ func (r *Report) Merge(o *Report) {
 	r.Transitions += o.Transitions
 	r.Validated += o.Validated
 	for k, v := range o.Outcomes {
-		r.Outcomes[k] += v
+		if _, ok := r.Outcomes[k]; ok || len(r.Outcomes) < 256 {
+			r.Outcomes[k] += v
+		}
 	}
+	if r.OutcomeH == nil {
+		r.OutcomeH = map[uint64]int64{}
+	}
+	for k, v := range o.OutcomeH {
+		if _, ok := r.OutcomeH[k]; !ok && len(r.OutcomeH) >= 8*outcomeCap {
+			r.OutcomeOverflow++
+			continue
+		}
+		r.OutcomeH[k] += v
+	}
+	r.OutcomeOverflow += o.OutcomeOverflow
 	for k, v := range o.Extra {
 		r.Extra[k] += v
 	}
